@@ -51,6 +51,7 @@ type decoded struct {
 func libDecode(src []byte, t byte) (d decoded) {
 	defer func() {
 		if r := recover(); r != nil {
+			explore.EngineFault(r)
 			d = decoded{pan: r}
 		}
 	}()
@@ -109,6 +110,7 @@ func checkInput(b []byte, types []byte) (fails []explore.ClauseFail) {
 	func() {
 		defer func() {
 			if r := recover(); r != nil {
+			explore.EngineFault(r)
 				fail("total", 0, "DetectPacket panicked: %v", r)
 			}
 		}()
@@ -229,6 +231,7 @@ func afterDecode(framed []byte, t byte) (fails []explore.ClauseFail) {
 	}
 	defer func() {
 		if r := recover(); r != nil {
+			explore.EngineFault(r)
 			fail("total", "panic after decoding: %v", r)
 		}
 	}()
@@ -280,6 +283,7 @@ func streamCheck(b []byte) (fails []explore.ClauseFail) {
 	}
 	defer func() {
 		if r := recover(); r != nil {
+			explore.EngineFault(r)
 			fail("total", "Decoder.Read panicked: %v", r)
 		}
 	}()
